@@ -149,6 +149,13 @@ def check(ctx, case):
     for i, _a in enumerate(nd):
         if i >= 1:
             break
+    # one pass suspended after its first note (possibly in the middle of a row) while a complete pass runs, then resumed
+    it2 = iter(nd)
+    first = [n for _, n in zip(range(1 + ctx.evaluations % 2), it2)]
+    mid = list(nd)
+    resumed = first + list(it2)
+    if resumed != mid:
+        ctx.violation("readback:pass-resumed-after-another-complete-pass-differs", {"n": len(mid), "first_diff": next((repr((a, b)) for a, b in zip(resumed, mid) if a != b), None)})
     back = list(nd)
     if list(nd) != back or head != back[: len(head)]:
         ctx.violation("readback:iteration-depends-on-earlier-iterations", {"n": len(back), "head": len(head)})
